@@ -33,10 +33,10 @@ def illegal_ts(rng, c):
     return rng.choice([604800000, 604800001, (1 << 30) - 1, rng.randint(604800000, (1 << 30) - 1)])
 
 
-def history(rng, need_after, nev=None):
+def history(rng, need_after, nev=None, T=None):
     """(T, [event strings]).  Per constellation: first observation in T's week (and >= T when need_after),
     non-decreasing whole milliseconds, consecutive ones < 6 days apart."""
-    T = rand_T(rng)
+    T = rand_T(rng) if T is None else T
     nev = nev or rng.randint(1, 40)
     cons = rng.sample(CONS, rng.randint(1, 4))
     last = {}
@@ -83,3 +83,21 @@ def history(rng, need_after, nev=None):
         last[c] = u
         evs.append("O%s%s:%d" % (c, k, u))
     return T, evs
+
+
+def restamp_stations(rng, frames_hex):
+    """The same frames with other reference-station ids (bits 36..47), CRC recomputed: two or three stations taking
+    turns (a caster failing over, or one station per constellation).  Times do not depend on the station."""
+    import gen
+    ids = [rng.getrandbits(12) for _ in range(rng.randint(2, 3))]
+    out = []
+    for hx in frames_hex.split(","):
+        f = bytearray(bytes.fromhex(hx))
+        if len(f) >= 12:
+            sid = rng.choice(ids)
+            f[4] = (f[4] & 0xF0) | (sid >> 8)
+            f[5] = sid & 0xFF
+            c = gen.crc24q(bytes(f[:-3]))
+            f[-3:] = c.to_bytes(3, "big")
+        out.append(bytes(f).hex())
+    return ",".join(out)
